@@ -33,6 +33,8 @@ type IssueP struct {
 	Prm  string `json:"prm"` // the issue's Params, printed with sorted keys
 }
 
+var jsonCounter int
+
 // the data value handed to Parse for the case's front end
 func frontEndData(c *Case) any {
 	switch c.Fe {
@@ -40,6 +42,10 @@ func frontEndData(c *Case) any {
 		b, err := json.Marshal(concInput(c.Input, c.Schema, c.Fe))
 		if err != nil {
 			panic(err)
+		}
+		jsonCounter++
+		if jsonCounter%3 == 0 {
+			b = prettyJSON(b)
 		}
 		return zjson.Decode(bytes.NewReader(b))
 	}
@@ -197,52 +203,67 @@ func warmUp(c *Case, sch z.ZogSchema, rec *recorder) {
 		rec.depth = 0
 	}()
 	rec.warm = true
-	if c.Mode == "parse" && (c.Fe == "map" || c.Fe == "json") {
-		// ... and once on the SAME destination type through the other in-memory front end (its keys differ):
-		// nothing about the source of an earlier call may stick to the schema either
-		func() {
-			defer func() { recover() }()
-			other := *c
-			other.Fe = map[string]string{"map": "json", "json": "map"}[c.Fe]
-			d2 := frontEndData(&other)
-			same := reflect.New(goType(c.Schema)).Interface()
-			switch s := sch.(type) {
-			case *z.StructSchema:
-				s.Parse(d2, same)
-			case *z.SliceSchema:
-				s.Parse(d2, same)
-			case *z.PointerSchema:
-				s.Parse(d2, same)
+	crossFrontEnd := func() {
+		if !(c.Mode == "parse" && (c.Fe == "map" || c.Fe == "json")) {
+			return
+		}
+		// once on the SAME destination type through the other in-memory front end (its keys differ):
+		// nothing about the source of an earlier call may stick to the schema
+		defer func() { recover() }()
+		other := *c
+		other.Fe = map[string]string{"map": "json", "json": "map"}[c.Fe]
+		d2 := frontEndData(&other)
+		same := reflect.New(goType(c.Schema)).Interface()
+		switch s := sch.(type) {
+		case *z.StructSchema:
+			s.Parse(d2, same)
+		case *z.SliceSchema:
+			s.Parse(d2, same)
+		case *z.PointerSchema:
+			s.Parse(d2, same)
+		}
+	}
+	altType := func() {
+		defer func() { recover() }()
+		alt := reflect.New(goTypeAlt(c.Schema))
+		dp := alt.Interface()
+		var data any
+		if c.Mode == "parse" {
+			data = frontEndData(c)
+		}
+		switch s := sch.(type) {
+		case *z.StructSchema:
+			if c.Mode == "parse" {
+				s.Parse(data, dp)
+			} else {
+				s.Validate(dp)
 			}
-		}()
+		case *z.SliceSchema:
+			if c.Mode == "parse" {
+				s.Parse(data, dp)
+			} else {
+				s.Validate(dp)
+			}
+		case *z.PointerSchema:
+			if c.Mode == "parse" {
+				s.Parse(data, dp)
+			} else {
+				s.Validate(dp)
+			}
+		}
 	}
-	alt := reflect.New(goTypeAlt(c.Schema))
-	dp := alt.Interface()
-	var data any
-	if c.Mode == "parse" {
-		data = frontEndData(c)
-	}
-	switch s := sch.(type) {
-	case *z.StructSchema:
-		if c.Mode == "parse" {
-			s.Parse(data, dp)
-		} else {
-			s.Validate(dp)
-		}
-	case *z.SliceSchema:
-		if c.Mode == "parse" {
-			s.Parse(data, dp)
-		} else {
-			s.Validate(dp)
-		}
-	case *z.PointerSchema:
-		if c.Mode == "parse" {
-			s.Parse(data, dp)
-		} else {
-			s.Validate(dp)
-		}
+	// whichever comes first is what a "remember the first call" memory would keep: both orders are used
+	warmCounter++
+	if warmCounter%2 == 0 {
+		crossFrontEnd()
+		altType()
+	} else {
+		altType()
+		crossFrontEnd()
 	}
 }
+
+var warmCounter int
 
 func hasStruct(n *Node) bool {
 	if n.K == "struct" {
